@@ -32,7 +32,7 @@ def _prefixes():
 
 class StepClock(object):
     __slots__ = ('steps', 'limit', 'intr_at', 'intr_exc', 'next_event', 'hook', 'hook_at',
-                 'reach', 'prefixes', '_glob', 'last_frame', 'fired', 'extra_prefixes', 'opcode')
+                 'reach', 'prefixes', '_glob', 'last_frame', 'fired', 'extra_prefixes', 'opcode', 'ref_calls')
 
     def __init__(self, reach=False, extra_prefixes=(), opcode=False):
         self.steps = 0
@@ -47,6 +47,7 @@ class StepClock(object):
         self.last_frame = None
         self.fired = None
         self.opcode = opcode
+        self.ref_calls = 0         # calls into hotxlfp/parser.py call_* (reference / function-call sites evaluated)
         self._glob = self._make()
 
     def _recompute(self):
@@ -84,6 +85,7 @@ class StepClock(object):
         reach = self.reach
         opcode = self.opcode
         ev_name = 'opcode' if opcode else 'line'
+        refmod = os.path.join('hotxlfp', 'parser.py')
 
         if reach is None:
             def local(frame, event, arg):
@@ -107,8 +109,13 @@ class StepClock(object):
             code = frame.f_code
             ok = cache.get(code)
             if ok is None:
-                ok = cache[code] = code.co_filename.startswith(prefixes)
+                ok = 1 if code.co_filename.startswith(prefixes) else 0
+                if ok and code.co_name.startswith('call_') and code.co_filename.endswith(refmod):
+                    ok = 2
+                cache[code] = ok
             if ok:
+                if ok == 2:
+                    clock.ref_calls += 1
                 if opcode:
                     frame.f_trace_opcodes = True
                     frame.f_trace_lines = False
